@@ -198,7 +198,8 @@ def bounded(ctx):
         d1 = make_dir(ctx, {"alpha.gb": gb_text("alpha", p1), "beta.gbk": gb_text("beta", p2, "KanR"),
                             "notes.txt": "hello", "gamma.genbank": gb_text("gamma", p3), "noext": gb_text("noext", p3),
                             "sub/zzz.gb": gb_text("zzz", p3), "sub/deep/yyy.gb": gb_text("yyy", p3)})
-        d2 = make_dir(ctx, {"alpha.gb": gb_text("alpha", p3, "CmR"), "delta.gb": gb_text("delta", p2, "SpecR")})
+        # (file stems need not be the identifiers written inside the files: `renamed.gb` holds the record `inner_id`)
+        d2 = make_dir(ctx, {"alpha.gb": gb_text("alpha", p3, "CmR"), "delta.gb": gb_text("inner_id", p2, "SpecR")})
         dirs += [d1, d2]
         r1 = base.FilesystemRegistry(d1, Entry)
         r2 = base.FilesystemRegistry(d2, Entry)
